@@ -696,6 +696,7 @@ X4_HAND = [
     # the same prefix for two modules at two levels: re-bound by REQUIRED calls, no defect
     (0, b'<box xmlns="urn:verif:rtx4" xmlns:a="urn:verif:rtx1" a:hint="h"><in xmlns:b="urn:verif:rtx2?a=1&amp;b=2" b:tag="t"><c2 a:num="5">pink</c2></in></box>'),
     (0, b'<box xmlns="urn:verif:rtx4"><ds>x</ds><in/></box>'),
+    (2, b'<box xmlns="urn:verif:rtx4"><color>pink</color><in/></box>'),
     # opaque children below data nodes
     (1, b'<box xmlns="urn:verif:rtx4"><color>pink</color><zz xmlns:p="urn:N1" p:a="p:v"><y xmlns="urn:o2"/></zz></box>'),
     (1, b'<box xmlns="urn:verif:rtx4" xmlns:a="urn:verif:rtx1" a:hint="h"><in><zz xmlns="urn:o1" xmlns:a="urn:N2" a:k="a:v"><y a:k="1"/></zz><c2 xmlns:a="urn:verif:rtx1">a:red</c2></in></box>'),
@@ -718,6 +719,10 @@ def run_xmeta(cx):
             docs.append((0, gen_box(rng)))
         elif r < 0.85:
             docs.append((0, to_xml(gen_top(rng))))                   # the rtx family: metadata on every node kind
+        elif r < 0.93:
+            # metadata on the IMPLICIT default nodes (the harness attaches rtx1:hint to every default leaf through the API): the
+            # first disjunct of the with-defaults condition of xml_print_meta on nodes that have metadata
+            docs.append((2, gen_box(rng) if rng.random() < 0.7 else to_xml(gen_top(rng))))
         else:
             # an opaque subtree below a data node (LYD_PARSE_OPAQ): an element of an unknown namespace inside the container
             b = gen_box(rng)
@@ -736,7 +741,7 @@ def run_xmeta(cx):
         r = ri.get(str(k + 1), ["err", "NoReply"])
         if r[0] != "ok" or len(r) < 11:
             cx.count(("xmeta", d), True, "rtx:xmeta:not parsed (%s)" % " ".join(r[:2]))
-            if (opq, d) in X4_HAND or not opq:
+            if (opq, d) in X4_HAND or opq != 1:
                 cx.fail("rtx", "generated instance with metadata rejected", {"xml": d.decode("utf-8", "replace"), "reply": r[:2]})
             continue
         for w in range(5):
